@@ -179,7 +179,8 @@ def run_cases(mod, ctx, cases, kinds_wanted='mgs'):
     both = lines_m[1:] + lines_s
     stateful = getattr(mod, 'STATEFUL', False)
     if stateful:
-        out = C_.run_driver([lines_m[0]] + both, parallel=False)[1:]
+        # model requests carry state: one process, in order; spec requests are stateless: spread out
+        out = C_.run_driver(lines_m, parallel=False)[1:] + C_.run_driver(lines_s, prefix=lines_m[0])
     else:
         out = C_.run_driver(both, prefix=lines_m[0])
     for j, k in enumerate(idx_m): res[k]['m'] = out[j]
